@@ -484,6 +484,10 @@ def bfExact (later : Items) : BitField → Bool
     if t == "_payload_" then payloadMode later == some (.sized m)
     else t != "_body_" && m == 0 && arrayShape later t == some .sizeField
   | .count t w => decide (w < 64) && arrayShape later t == some .countField
+  | .flag id opts =>
+    -- a condition flag: its value is 0 / 1 and every optional field it lists follows, governed by it
+    !opts.isEmpty && opts.all (fun o => decide (o.2 ≤ 1)) &&
+    opts.all (fun o => (optItems later).contains (id, o.1, o.2))
   | _ => false
 
 /-- context keys bound by the chunks of a field list -/
@@ -522,7 +526,7 @@ def exactWfTy : Ty → Bool
 def exactWfItem (later : Items) : Item → Bool
   | .chunk fs => chunkBits fs % 8 == 0 && fs.all (bfExact later)
   | .typedef _ ty _ => exactWfTy ty
-  | .optional .. => false
+  | .optional _ ty _ _ => exactWfTy ty
   | .payload _ => true
   | .array id elem ew _ pad =>
     pad.isNone && exactWfTy elem && lenWfTy elem && id != "_payload_" && id != "_body_" &&
@@ -541,10 +545,12 @@ def consumes (is : Items) : Key → Bool
   | .size t =>
     if t == "_payload_" then (match payloadMode is with | some (.sized _) => true | _ => false)
     else arrayShape is t == some .sizeField
+  | .val _ => true
   | _ => false
 
-/-- packets and structs without parent, without reserved bits, padding, optional fields, element-size
-    fields and array size modifiers, whose size and count fields each delimit a later array or the payload -/
+/-- packets and structs without parent, without reserved bits, padding, element-size fields and array size
+    modifiers, whose size and count fields each delimit a later array or the payload and whose condition
+    flags each govern optional fields that follow -/
 def exactWfBody : Body → Bool
   | .root _ items => exactWfItems items && exactLevel items
   | .derived .. => false
